@@ -18,7 +18,7 @@ ASSUMPTIONS = ['data excludes ~ * : (the converter\'s fixed output delimiters; X
                'the component separator (it is the value of ISA16) is a character XML 1.0 can represent; segment and element separators may be control characters',
                'the id of the <comp> wrapper element is not asserted (the property names elements and components)',
                'the intended map path of each segment is the generator\'s ground truth (unambiguous sub-language, DESIGN 4.1)']
-REQUIRED_COUNTERS = ['docs:data-with-CDATA-end', 'docs:data-with-comment-marks', 'docs:with-TA1', 'cli:invocations', 'cli:round-trips-compared', 'docs:component-separator-inside-a-simple-element', 'docs:with-doctype', 'docs', 'segments-compared', 'elements-compared', 'subelements-compared', 'roundtrips', 'docs:escaped-chars', 'docs:repeated-loop', 'docs:notused-filled', 'reach:x12xml_simple.seg']
+REQUIRED_COUNTERS = ['docs:data-holding-the-usual-delimiters', 'docs:blank-only-component', 'docs:data-with-CDATA-end', 'docs:data-with-comment-marks', 'docs:with-TA1', 'cli:invocations', 'cli:round-trips-compared', 'docs:component-separator-inside-a-simple-element', 'docs:with-doctype', 'docs', 'segments-compared', 'elements-compared', 'subelements-compared', 'roundtrips', 'docs:escaped-chars', 'docs:repeated-loop', 'docs:notused-filled', 'reach:x12xml_simple.seg']
 MIN_CASES = {'quick': 200, 'thorough': 6000}
 WATCHDOG_S = {'quick': 1200, 'thorough': 7200}
 
@@ -275,6 +275,70 @@ def judge(ctx, doc, terms, case, sigs):
         sigs.add('%08x' % zlib.crc32(text.encode('utf-8', 'replace')))
 
 
+def build(ctx, e, label, k, seed=None):
+    """the document, delimiters and case record of index k for one map entry (shared by the run and by replays)"""
+    rng = ctx.sub_rng('c08', label, k)
+    terms = TERMS[k % len(TERMS)]
+    cs = 'E' if k % 4 != 3 else 'B'
+    kw = dict(fill=[0.3, 0.6, 1.0][k % 3], opt_prob=[0.4, 0.7, 1.0][(k // 3) % 3], maxrep=[1, 2, 3][(k // 2) % 3], charset=cs, rich=True,
+              n_isa=2 if k % 9 == 8 else 1, n_gs=2 if k % 5 == 4 else 1, n_st=[1, 2][k % 2], fill_notused=0.3 if k % 6 == 5 else 0.0,
+              forbid='~*:^' + ''.join(terms) + '\r\n\t')
+    seed = zlib.crc32(repr((ctx.seed, label, k)).encode()) if seed is None else seed
+    try:
+        doc = gen_doc.gen_document(e, seed, **kw)
+    except gen_doc.GenFailed:
+        ctx.count('genfailed')
+        return None
+    if len(doc.recs) > 1500:
+        ctx.count('skipped-large')
+        return None
+    if k % 4 == 2:
+        # the envelope map's own optional segment: an interchange acknowledgement after the ISA or after the last group
+        doc = gen_doc.add_ta1(doc, ['after-isa', 'before-iea'][(k // 4) % 2])
+        ctx.count('docs:with-TA1')
+    if k % 7 == 3:
+        # one or two plain AN elements get data that holds the component separator ('X<sep>Y', '<sep>Y'): an element error, but the segment
+        # is still located in its map, so rendering and round trip must carry the text unchanged
+        from vlib import faults
+        sites = [x for x in faults.element_sites(doc, None) if x[3] is None and x[1].kind == 'ele' and faults._present(x[4]) and x[1].usage != 'N'
+                 and faults._plain_site(x[0], x[1], x[2], x[3], x[4], doc) and gen_doc.dtype_of(x[1])[0] == 'AN' and not x[1].codes and not x[1].external]
+        rng.shuffle(sites)
+        if sites:
+            doc = faults.clone(doc)
+            for (i2, node2, ep2, sp2, cur2) in sites[:rng.choice([1, 2])]:
+                doc.recs[i2].vals[ep2 - 1] = rng.choice([['X', 'Y'], ['', 'Y'], ['SEE ATTACHED', ' OP REPORT'], ['A', '', 'C']])
+            ctx.count('docs:component-separator-inside-a-simple-element')
+    if k % 5 == 1:
+        # the characters that usually delimit (~ * :) as ordinary data of a document that uses other delimiters: valid, and they come back
+        usable_ = [c for c in '*:~' if c not in terms and (c != '~' or cs == 'E')]
+        from vlib import faults as faults2_
+        sites_ = [x for x in faults2_.element_sites(doc, None) if x[1].kind == 'ele' and faults2_._present(x[4]) and x[1].usage != 'N'
+                  and faults2_._plain_site(x[0], x[1], x[2], x[3], x[4], doc) and gen_doc.dtype_of(x[1])[0] == 'AN' and not x[1].codes and not x[1].external
+                  and not x[1].regex and gen_doc.dtype_of(x[1])[1] <= 3 <= gen_doc.dtype_of(x[1])[2]]
+        if usable_ and sites_:
+            doc = faults2_.clone(doc)
+            rng.shuffle(sites_)
+            for (i3, node3, ep3, sp3, cur3) in sites_[:3]:
+                faults2_.set_value(doc.recs[i3], ep3, sp3, 'A' + rng.choice(usable_) + 'B')
+            ctx.count('docs:data-holding-the-usual-delimiters')
+    if k % 7 == 5:
+        # a component (middle or last) of a composite that holds blanks only: data, not absence - it comes back as it went
+        from vlib import faults as faults_
+        comps_ = [(r_, j_) for r_ in doc.recs if faults_.is_body(r_) for j_, v_ in enumerate(r_.vals) if isinstance(v_, list) and len(v_) >= 2]
+        if comps_:
+            doc = faults_.clone(doc)
+            comps_ = [(r_, j_) for r_ in doc.recs if faults_.is_body(r_) for j_, v_ in enumerate(r_.vals) if isinstance(v_, list) and len(v_) >= 2]
+            for (r_, j_) in rng.sample(comps_, min(len(comps_), 2)):
+                v_ = list(r_.vals[j_])
+                v_[rng.randint(1, len(v_) - 1)] = ' ' * rng.randint(1, 3)
+                r_.vals[j_] = v_
+            ctx.count('docs:blank-only-component')
+    case = {'map': e['file'], 'entry': e, 'gen_seed': seed, 'params': kw, 'terms': list(terms), 'simple_dtd': [None, 'x12simple.dtd', None, 'http://example.invalid/dtd/x12simple.dtd', None][k % 5], 'ta1': doc.meta.get('ta1')}
+    case['k'] = k
+    case['label'] = label
+    return doc, terms, case, seed
+
+
 def run(ctx):
     install(ctx)
     sigs = set()
@@ -286,38 +350,10 @@ def run(ctx):
         for k in range(per_map):
             if not ctx.mine((label, k)):
                 continue
-            rng = ctx.sub_rng('c08', label, k)
-            terms = TERMS[k % len(TERMS)]
-            cs = 'E' if k % 4 != 3 else 'B'
-            kw = dict(fill=[0.3, 0.6, 1.0][k % 3], opt_prob=[0.4, 0.7, 1.0][(k // 3) % 3], maxrep=[1, 2, 3][(k // 2) % 3], charset=cs, rich=True,
-                      n_isa=2 if k % 9 == 8 else 1, n_gs=2 if k % 5 == 4 else 1, n_st=[1, 2][k % 2], fill_notused=0.3 if k % 6 == 5 else 0.0,
-                      forbid='~*:^' + ''.join(terms) + '\r\n\t')
-            seed = zlib.crc32(repr((ctx.seed, label, k)).encode())
-            try:
-                doc = gen_doc.gen_document(e, seed, **kw)
-            except gen_doc.GenFailed:
-                ctx.count('genfailed')
+            built = build(ctx, e, label, k)
+            if built is None:
                 continue
-            if len(doc.recs) > 1500:
-                ctx.count('skipped-large')
-                continue
-            if k % 4 == 2:
-                # the envelope map's own optional segment: an interchange acknowledgement after the ISA or after the last group
-                doc = gen_doc.add_ta1(doc, ['after-isa', 'before-iea'][(k // 4) % 2])
-                ctx.count('docs:with-TA1')
-            if k % 7 == 3:
-                # one or two plain AN elements get data that holds the component separator ('X<sep>Y', '<sep>Y'): an element error, but the segment
-                # is still located in its map, so rendering and round trip must carry the text unchanged
-                from vlib import faults
-                sites = [x for x in faults.element_sites(doc, None) if x[3] is None and x[1].kind == 'ele' and faults._present(x[4]) and x[1].usage != 'N'
-                         and faults._plain_site(x[0], x[1], x[2], x[3], x[4], doc) and gen_doc.dtype_of(x[1])[0] == 'AN' and not x[1].codes and not x[1].external]
-                rng.shuffle(sites)
-                if sites:
-                    doc = faults.clone(doc)
-                    for (i2, node2, ep2, sp2, cur2) in sites[:rng.choice([1, 2])]:
-                        doc.recs[i2].vals[ep2 - 1] = rng.choice([['X', 'Y'], ['', 'Y'], ['SEE ATTACHED', ' OP REPORT'], ['A', '', 'C']])
-                    ctx.count('docs:component-separator-inside-a-simple-element')
-            case = {'map': e['file'], 'entry': e, 'gen_seed': seed, 'params': kw, 'terms': list(terms), 'simple_dtd': [None, 'x12simple.dtd', None, 'http://example.invalid/dtd/x12simple.dtd', None][k % 5], 'ta1': doc.meta.get('ta1')}
+            doc, terms, case, seed = built
             judge(ctx, doc, terms, case, sigs)
             n += 1
             if k % 6 == 2 and not case.get('simple_dtd'):
@@ -330,6 +366,10 @@ def run(ctx):
 
 def replay(ctx, case):
     install(ctx)
+    if 'k' in case:
+        doc, terms, case2, seed = build(ctx, case['entry'], case['label'], case['k'], case.get('gen_seed'))
+        judge(ctx, doc, terms, case2, set())
+        return
     doc = gen_doc.gen_document(case['entry'], case['gen_seed'], **case['params'])
     if case.get('ta1'):
         doc = gen_doc.add_ta1(doc, case['ta1'])
